@@ -150,6 +150,24 @@ Proof.
   split; [vm_compute; repeat constructor|]. split; [vm_compute; auto 60 | vm_compute; auto 60].
 Qed.
 
+(* 9b. The wrapper objects built by the ImplementationBase constructor (plain_distance := PlainDistance(distance),
+       kernel_distance := KernelDistance(kernel)) wrap the callback slot of their own role, and every member function
+       of the wrapper calls only the member function of that role on the wrapped callback. *)
+Theorem wrappers_forward_to_own_role : forall c slot w e,
+  find_class (t_classes chain_gen) (t_impl_class chain_gen) = Some c ->
+  In (slot, EWrap w e) (c_inits c) ->
+  exists s tb r, e = EId s /\ In (w, tb) (u_wrappers uses_gen) /\ slot_role s = Some r /\ slot_role slot = Some r /\
+    tb <> [] /\
+    forall member calls, In (member, calls) tb -> calls <> [] /\ forall f, In f calls -> f = role_function r.
+Proof. exact wrappers_forward_to_own_role_proof. Qed.
+Print Assumptions wrappers_forward_to_own_role.
+
+Example wrappers_forward_nonvacuous : exists c,
+  find_class (t_classes chain_gen) (t_impl_class chain_gen) = Some c /\
+  In ("plain_distance", EWrap "PlainDistance" (EId "distance")) (c_inits c) /\
+  In ("kernel_distance", EWrap "KernelDistance" (EId "kernel")) (c_inits c).
+Proof. eexists. split; [vm_compute; reflexivity|]. split; vm_compute; auto 20. Qed.
+
 (* 10. The deciders the check evaluates (extracted) on the regenerated tables are sound for EVERY table: whenever
        they answer true, the Prop-level statements 1, 3 and 4 hold of that table (no finiteness of the table is used). *)
 Theorem routing_decider_sound : forall t, all_routes_ok t = true ->
